@@ -335,6 +335,22 @@ def check_kernel(out, facts):
                 st = evs[3]
                 dec_ok = sym.vstr(st[1]) == rs and ((st[3] == 'SubAssign' and sym.vstr(st[2]) == chunk) or
                                                     (st[3] is None and sym.vstr(st[2]) == '(%s Sub %s)' % (rs, chunk)))
+                if not dec_ok and sym.vstr(st[1]) == rs and st[3] == 'SubAssign' and 'cbres' in sym.vstr(st[2]) and \
+                        contains(st[2], lambda x: strip(x) == ('cbres',)):
+                    # the decrement is what the callback reports: then every callback the crate passes reports the chunk it
+                    # was given — decided on the callers with the kernel and their closures inlined, where the decrement must
+                    # read `remaining -= chunk` again
+                    dec_ok = True
+                    for role in ('bulk', 'items'):
+                        gcall = roles(facts).get(role)
+                        if not gcall:
+                            dec_ok = False
+                            break
+                        tc, _vc, _ec = wire.infer_decoder_fn(facts, gcall)
+                        sets = [e for e in events(tc) if e[0] == 'SET' and strip(e[1])[0] == 'mutvar' and strip(e[1])[2] == strip(rem)[2]]
+                        if not (len(sets) == 1 and sets[0][3] == 'SubAssign' and _is_chunk(sets[0][2])):
+                            dec_ok = False
+                            why.append('K2 the callback of helper:%s does not report the chunk it was given: %s' % (role, [sym.tstr(e) for e in sets][:2]))
                 if not dec_ok:
                     why.append('K2 remaining is not decreased by exactly the chunk: ' + sym.tstr(st))
                 seq = [e[0] for e in items(live[0])] if live else []
